@@ -304,11 +304,16 @@ impl<'a> CaseGen<'a> {
                 let d = 1_000_000_000_000 + self.g.below(1000) as i64;
                 (r, e, c, m, k) = (room, he, d, d, hk);
             }
-            // unknown entity
+            // unknown entity; or a row of a room-definition entity (sys.UserAuth naming the author itself)
             8 => {
                 let (hk, _, hd) = self.honest(ri, false, None, 0).unwrap_or((1, 1, 300));
                 id = self.fresh_id();
-                (r, e, c, m, k) = (room, 9, hd, hd, hk);
+                if self.g.chance(1, 2) {
+                    (r, e, c, m, k) = (room, 9, hd, hd, hk);
+                } else {
+                    (r, e, c, m, k) = (room, 102, hd, hd, hk);
+                    js = "ukey".into();
+                }
             }
             // an entity the author has no right on
             9 => {
@@ -1198,11 +1203,19 @@ pub fn generate(prop: &str, seed: u64, n: usize, out: &str) {
                 std::process::exit(2);
             }
         };
-        // DV_OFF=<switch,…>: the cases are meant for a /repo with those fixes applied (model switches off)
+        // DV_OFF / DV_ON=<switch,…>: the cases are meant for a /repo with those fixes applied / reverse-applied
         let off = std::env::var("DV_OFF").unwrap_or_default();
+        let on = std::env::var("DV_ON").unwrap_or_default();
         for (i, l) in lines.iter().enumerate() {
-            if i == 0 && !off.is_empty() {
-                writeln!(w, "{} off={}", l, off).unwrap();
+            if i == 0 {
+                let mut h = l.clone();
+                if !off.is_empty() {
+                    h.push_str(&format!(" off={}", off));
+                }
+                if !on.is_empty() {
+                    h.push_str(&format!(" on={}", on));
+                }
+                writeln!(w, "{}", h).unwrap();
             } else {
                 writeln!(w, "{}", l).unwrap();
             }
